@@ -1,6 +1,7 @@
 package main
 
 import (
+	"bytes"
 	"crypto/sha256"
 	"encoding/hex"
 	"encoding/json"
@@ -63,7 +64,8 @@ func seededContentFault(r *prng.R, file string, src []byte, corpus []Prog) (simd
 	if words < 1 {
 		words = 1
 	}
-	kinds := []string{"short_read", "lost_block", "dup_block", "swap_blocks", "zero_block", "flip", "torn_write", "splice", "crlf", "bom"}
+	kinds := []string{"short_read", "lost_block", "dup_block", "swap_blocks", "zero_block", "flip", "torn_write", "splice", "crlf", "bom", "graft", "graft", "wrap", "wrap"}
+	nLines := bytes.Count(src, []byte("\n")) + 1
 	k := prng.Pick(r, kinds)
 	f := simdisk.Fault{Kind: k, File: file}
 	alt := ""
@@ -92,6 +94,15 @@ func seededContentFault(r *prng.R, file string, src []byte, corpus []Prog) (simd
 		a := &corpus[r.Intn(len(corpus))]
 		alt = filepath.Join(a.Base, a.Root)
 		f.Off2 = r.Intn(len(a.Src) + 1)
+	case "graft":
+		f.Off = r.Intn(nLines + 1)
+		a := &corpus[r.Intn(len(corpus))]
+		alt = filepath.Join(a.Base, a.Root)
+		f.Off2 = r.Intn(bytes.Count(a.Src, []byte("\n")) + 1)
+		f.Len = r.Range(1, 4)
+	case "wrap":
+		f.Off = r.Intn(nLines)
+		f.Len = r.Intn(len(simdisk.WrapHeaders))
 	}
 	return f, alt
 }
@@ -162,10 +173,15 @@ func planSrcsim(tier string, corpus []Prog) *srcPlan {
 			for _, o := range offs[:len(offs)-1] {
 				fs = append(fs, simdisk.Fault{Kind: "flip", File: p.Root, Off: o, Mask: 0x20})
 			}
+			for l, n := 0, bytes.Count(p.Src, []byte("\n"))+1; l < n; l++ {
+				for h := range simdisk.WrapHeaders {
+					fs = append(fs, simdisk.Fault{Kind: "wrap", File: p.Root, Off: l, Len: h})
+				}
+			}
 		} else {
 			r := prng.Stream(seed, "srcsim", "block", p.Name)
 			for n := 0; n < 50; n++ {
-				k := prng.Pick(r, []string{"lost_block", "dup_block", "swap_blocks", "zero_block", "flip"})
+				k := prng.Pick(r, []string{"lost_block", "dup_block", "swap_blocks", "zero_block", "flip", "wrap"})
 				f := simdisk.Fault{Kind: k, File: p.Root, Off: r.Intn(max(words, 1)), Len: r.Range(1, 3)}
 				if k == "swap_blocks" {
 					f.Off2 = f.Off + r.Range(1, 3)
@@ -174,6 +190,10 @@ func planSrcsim(tier string, corpus []Prog) *srcPlan {
 				if k == "flip" {
 					f.Off = r.Intn(len(p.Src) + 1)
 					f.Mask = 1 << r.Intn(8)
+				}
+				if k == "wrap" {
+					f.Off = r.Intn(bytes.Count(p.Src, []byte("\n")) + 1)
+					f.Len = r.Intn(len(simdisk.WrapHeaders))
 				}
 				fs = append(fs, f)
 			}
